@@ -20,6 +20,9 @@ CHECKS = {
     "C13": ("constant-table extraction + must-pass-through reply discipline over MIR CFG + taint-based panic-site inventory with discharge table",
             "All-sites/all-paths structural decision over the type-checked MIR: the 7 command regexes (read from the compiled constant) are anchored (?i)^...$ without top-level alternation, aligned index-by-index with the Command variant the handler returns, with capture groups exactly on the SET forms and the role alternation equal to the handled literals; every Command arm of handle_custom_protocol sends exactly one reply ending in ReadyForQuery before Ok(true); handled => no checkout/send in that iteration, not-a-command => Ok(false) with no client write; SHOW reads the fields SET writes; every panic-capable operation in try_execute_command on data tainted by the query text is either in the discharge table (with a reason, some re-verified structurally) or a violation.",
             "Regex matching over all strings is not evaluated (only the table's shape); regex crate semantics trusted. " + TRUST, "DESIGN.md §4 C13"),
+    "C15": ("obligation<->validator pairing: taint-based enumeration of panic-capable/positional uses of configuration quantities over MIR + control-dependence analysis of BadConfig returns",
+            "All-sites structural decision: every unwrap/expect/panic/index/Rem and every bb8/tokio builder contract whose operand is tainted by a configuration field in pool construction, routing, banning, mirrors, sharding and admin code is enumerated from the type-checked MIR (69 sites today) and must be discharged by the validators registered for that quantity; each validator is re-verified on every run as a `return Err(BadConfig)` in Config/Pool/User/Shard::validate whose controlling conditions (control dependence + taint) depend on that quantity; call-site guards and by-construction facts used by the pairing are re-verified too. A new panic-capable use of a config value, or a deleted validator, is a violation.",
+            "TOML/serde acceptance, TLS file checks and the validators' arithmetic beyond dependence on the right quantities/constants are not decided; bb8/tokio panics come from their documented contracts. " + TRUST, "DESIGN.md §4 C15"),
 }
 
 NOT_APPLICABLE = {}
